@@ -895,7 +895,7 @@ def self_test(ctx, traces, batches):
     _, rej, _ = validate(ctx, [cfg] + [e for i, e in enumerate(h) if i != k], "AdminTrace_both.cfg", "self-c", max_rounds=1)
     results["dropped start-up event"] = bool(rej)
     # (d) a validation that wrote to the proxy
-    h, k = pick(lambda e: e["ev"] == "call" and e.get("ep") == "validate_flows")
+    h, k = pick(lambda e: e["ev"] == "call" and e.get("ep") == "validate_flows" and e["method"] == "POST" and e["code"] in (200, 422))
     bad = [json.loads(json.dumps(e)) for e in h]
     bad[k]["obs"]["put"] = 3
     _, rej, _ = validate(ctx, [cfg] + bad, "AdminTrace_both.cfg", "self-d", max_rounds=1)
